@@ -13,7 +13,7 @@ pub struct Tols {
     pub de_b: f64,
     /// polar types: K·eps·Σ C_i·(1 + |h_i| in radians), the rounding of C·cos h / C·sin h
     pub polar_k: f64,
-    /// exclusion zone | |Δh'| − 180° | < thr180 (degrees)
+    /// exclusion zone | |Δh'| − 180° | < thr180 (degrees); also "within rounding of h1'+h2' = 360°"
     pub thr180: f64,
     /// relative luminance, absolute
     pub lum: f64,
@@ -22,12 +22,15 @@ pub struct Tols {
 }
 pub fn tols<T: Fl>() -> Tols {
     if T::NAME == "f32" {
-        Tols { rel: 4e-6, de_a: 3e-5, de_b: 8e-6, polar_k: 8.0, thr180: 2e-3, lum: 2e-6, ratio_rel: 4e-6 }
+        Tols { rel: 4e-6, de_a: 3e-5, de_b: 8e-6, polar_k: 16.0, thr180: 2e-3, lum: 2e-6, ratio_rel: 4e-6 }
     } else {
-        Tols { rel: 2e-14, de_a: 1e-9, de_b: 1e-13, polar_k: 8.0, thr180: 1e-9, lum: 2e-7, ratio_rel: 2e-14 }
+        Tols { rel: 2e-14, de_a: 1e-9, de_b: 1e-13, polar_k: 16.0, thr180: 1e-9, lum: 5e-7, ratio_rel: 2e-14 }
     }
 }
-pub const TOL_NOTE: &str = "see notes.tolerances";
+pub const TOL_NOTE: &str = "closed forms (Euclid, HyAB, a·ΔE^b): relative 4e-6 (f32) / 2e-14 (f64) — ≤ ~6 roundings + powf; worst observed 0.10·tol (f32, powf of a 2e-11 ΔE00). \
+CIEDE2000: A·(1+ΔE) + B·sqrt(C1'·C2') [+ 6e-6·ΔE next to Σh' = 360°, the formula's own jump], A = 3e-5, B = 8e-6 (f32: h' is held in degrees in T, so Δh' carries ≈ 3 half-ulps of 360° = 4.6e-5° = 8e-7 rad, which ΔH' = 2·sqrt(C1'C2')·sin(Δh'/2) scales by the chroma) and A = 1e-9, B = 1e-13 (f64). Worst rounding error observed on the pinned tree: 0.12·tol in f32 (8.6× slack), 5.6e-5·tol in f64; the ±4-ulp input envelope was never needed for a passing pair on the lattice. The seeded changes move lattice results by ≥ 1e-2 (≥ 5× the largest f32 tol of 2e-3 at ΔE = 60, C = 150; ≥ 1e5× the f64 tol). \
+polar types: 16·eps·Σ C_i·(1+|h_i| rad) for forming C·cos h, C·sin h in T (observed ≤ 0.115·tol; through a·ΔE^b the ΔE tolerance is propagated, the power function not being Lipschitz at 0). \
+WCAG: luminance 2e-6 (f32: 3 powf + 3-term dot product, observed 0.044·tol) / 5e-7 (f64: the 7-digit matrix row 0.2126729 vs 0.21267285 derived, observed 0.097·tol) outside the interval spanned by the 4-digit WCAG row and the primaries-derived row; ratio vs own luminances 16 eps (observed 1.4 eps); upper bound 21·(1+16 eps) clamped / 21·(1+1e-6) unclamped deprecated trait (Y row sums to 1.0000001) / 21·(1+2e-3) for types reached through conversions; a coefficient or threshold change of 1e-4 moves a grid luminance by ≥ 1e-4 = 50–200× tol.";
 
 pub fn hex<T: Fl>(v: &[T]) -> Vec<String> {
     v.iter().map(|x| format!("{:#x}", x.bits64())).collect()
@@ -63,6 +66,7 @@ pub struct Local {
     pub case_pairs: [u64; 6],
     pub excluded: u64,
     pub excluded_1e3: u64,
+    pub near_sum360: u64,
     pub needed_envelope: u64,
     pub asym_bits: u64,
     /// largest err/tol in the sum ≥ 360 branches of CIEDE2000 (kept apart from `best`)
@@ -84,6 +88,7 @@ impl Local {
         }
         self.excluded += o.excluded;
         self.excluded_1e3 += o.excluded_1e3;
+        self.near_sum360 += o.near_sum360;
         self.needed_envelope += o.needed_envelope;
         self.asym_bits += o.asym_bits;
         self.best_ge360 = self.best_ge360.max(o.best_ge360);
@@ -111,6 +116,9 @@ pub struct Expect {
     pub tol: f64,
     pub class: &'static str,
     pub used_envelope: bool,
+    /// false: the error of this pair is not rounding (mean-hue finding, the formula's own jump
+    /// at Σ = 360°) and is kept out of the max err/tol calibration figure
+    pub calib: bool,
 }
 
 fn n_of(space: Space, v: [f64; 3]) -> [f64; 3] {
@@ -133,12 +141,12 @@ pub fn expect_closed<T: Fl>(space: Space, m: Meas, x: [T; 3], y: [T; 3]) -> Expe
         let d = oracle::euclid_polar(x64, y64);
         let abs = if same { 0.0 } else { t.polar_k * T::EPS * (x64[1].abs() * (1.0 + x64[2].abs().to_radians()) + y64[1].abs() * (1.0 + y64[2].abs().to_radians())) };
         return match m {
-            Meas::DeltaE => Expect { lo: d, hi: d, tol: t.rel * d + abs, class, used_envelope: false },
+            Meas::DeltaE => Expect { lo: d, hi: d, tol: t.rel * d + abs, class, used_envelope: false, calib: true },
             _ => {
                 // a·ΔE^b is not Lipschitz at 0: the ΔE tolerance is propagated through the power function
                 let v = oracle::improved(huang.0, huang.1, d);
                 let w = oracle::improved(huang.0, huang.1, d + abs) - oracle::improved(huang.0, huang.1, (d - abs).max(0.0));
-                Expect { lo: v, hi: v, tol: t.rel * v + w, class, used_envelope: false }
+                Expect { lo: v, hi: v, tol: t.rel * v + w, class, used_envelope: false, calib: true }
             }
         };
     }
@@ -150,12 +158,26 @@ pub fn expect_closed<T: Fl>(space: Space, m: Meas, x: [T; 3], y: [T; 3]) -> Expe
         _ => f64::NAN,
     };
     let rel = if m == Meas::DistanceSquared { 2.0 * t.rel } else { t.rel };
-    Expect { lo: r, hi: r, tol: rel * r, class, used_envelope: false }
+    Expect { lo: r, hi: r, tol: rel * r, class, used_envelope: false, calib: true }
 }
 
 pub fn de_tol<T: Fl>(r: &De00) -> f64 {
     let t = tols::<T>();
-    t.de_a * (1.0 + r.de) + t.de_b * (r.c1p * r.c2p).sqrt()
+    t.de_a * (1.0 + r.de) + t.de_b * (r.c1p * r.c2p).sqrt() + sum360_jump::<T>(r)
+}
+
+/// Sharma's formula has a second, tiny jump of its own: for |Δh'| > 180° the mean hue is
+/// (Σ + 360)/2 below Σ = h1' + h2' = 360° and (Σ − 360)/2 from there on, i.e. h̄' jumps from 360°
+/// to 0°. T is 360°-periodic, Δθ = 30·exp(−((h̄' − 275)/25)²) is not: it drops from 2.89e-4° to
+/// ~0, R_T changes by ≤ 2·sin(2·2.89e-4°) = 2.02e-5, the radicand by ≤ 2.02e-5·ΔE²/2 and ΔE by
+/// ≤ 5.05e-6·ΔE. A pair within rounding of Σ = 360° may land on either side.
+pub fn sum360_jump<T: Fl>(r: &De00) -> f64 {
+    let gt180 = !matches!(r.case, HueCase::ZeroChroma | HueCase::Le180);
+    if gt180 && (r.h1 + r.h2 - 360.0).abs() < tols::<T>().thr180 {
+        6e-6 * r.de
+    } else {
+        0.0
+    }
 }
 
 /// CIEDE2000 expectation for a Lab or Lch pair: Sharma's formula on the T-rounded inputs; when
@@ -182,9 +204,15 @@ pub fn expect_ciede<T: Fl>(space: Space, x: [T; 3], y: [T; 3], obs: [f64; 2], l:
         }
     }
     let tol = de_tol::<T>(&r);
+    if sum360_jump::<T>(&r) > 0.0 {
+        l.near_sum360 += 1;
+    }
     let class = r.case.name();
     if obs.iter().all(|o| (o - r.de).abs() <= tol) {
-        return (r, Some(Expect { lo: r.de, hi: r.de, tol, class, used_envelope: false }));
+        // a polar hue that is a multiple of 360° is h' = 0 for the reference and 360 − ε after
+        // rounding: such a pair can sit in a sum ≥ 360 branch without the reference saying so
+        let wraps = polar && r.case != HueCase::ZeroChroma && [r.h1, r.h2].iter().any(|h| h.min(360.0 - h) < 1e-6);
+        return (r, Some(Expect { lo: r.de, hi: r.de, tol, class, used_envelope: false, calib: !class.ends_with("sum>=360") && sum360_jump::<T>(&r) == 0.0 && !wraps }));
     }
     // backward-error envelope (DESIGN §3.4)
     l.needed_envelope += 1;
@@ -200,7 +228,7 @@ pub fn expect_ciede<T: Fl>(space: Space, x: [T; 3], y: [T; 3], obs: [f64; 2], l:
         touched.set(touched.get().max(v.case.index()));
         v.de
     });
-    (r, Some(Expect { lo, hi, tol, class: oracle::HUE_CASES[touched.get()].name(), used_envelope: true }))
+    (r, Some(Expect { lo, hi, tol, class: oracle::HUE_CASES[touched.get()].name(), used_envelope: true, calib: false }))
 }
 
 pub fn pair_case<T: Fl>(group: &str, space: Space, m: Meas, x: [T; 3], y: [T; 3], what: &str, obs: [f64; 2], e: Option<&Expect>) -> Value {
@@ -249,7 +277,7 @@ pub fn check_pair<T: Sc>(group: &str, space: Space, m: Meas, x: [T; 3], y: [T; 3
                     let t = tols::<T>();
                     let f = |d: f64| if m == Meas::ColorDifference { d } else { oracle::improved(oracle::HUANG_CIEDE2000.0, oracle::HUANG_CIEDE2000.1, d) };
                     let (a, b) = (f(d[0]), f(d[1]));
-                    Some(Expect { lo: a.min(b), hi: a.max(b), tol: t.rel * a.max(b), class: "vs-own-ciede2000", used_envelope: false })
+                    Some(Expect { lo: a.min(b), hi: a.max(b), tol: t.rel * a.max(b), class: "vs-own-ciede2000", used_envelope: false, calib: true })
                 }
                 _ => None, // already reported under Ciede2000::difference
             }
@@ -304,7 +332,7 @@ pub fn check_pair<T: Sc>(group: &str, space: Space, m: Meas, x: [T; 3], y: [T; 3
             // of the jump only up to the jump itself — nothing more to compare
         }
     }
-    if ok && class.ends_with("sum>=360") {
+    if ok && exp.as_ref().is_some_and(|e| !e.calib) {
         // kept apart: in these branches the error is dominated by the mean-hue deviation
         // (a recorded finding), which would hide the rounding calibration of the other branches
         l.best_ge360 = l.best_ge360.max(worst);
@@ -351,8 +379,10 @@ pub fn check_polar_rect<T: Sc>(space: Space, only: Option<Meas>, dir: &'static s
             continue;
         }
         let sig = |class: &str, kind: &str| format!("C09/{}/{}/{}<{}>-vs-{}/{}/{}/{}", group, m.name(), space.name(), T::NAME, rect.name(), dir, class, kind);
+        let mut calib = true;
         let (tol, class): (f64, &'static str) = if m.is_ciede() {
             let r = *de.get_or_insert_with(|| oracle::ciede2000(to64(pr), to64(qr)));
+            calib = sum360_jump::<T>(&r) == 0.0;
             if m == Meas::Ciede2000 {
                 l.case_pairs[r.case.index()] += 1;
             }
@@ -392,6 +422,8 @@ pub fn check_polar_rect<T: Sc>(space: Space, only: Option<Meas>, dir: &'static s
         let case = || json!({"sub": group, "space": space.name(), "measure": m.name(), "float": T::NAME, "direction": dir, "input": input(), "polar": [p64, q64], "rect": [to64(pr), to64(qr)], "observed": {"polar": fnum(op), "rect": fnum(or)}, "tol": tol, "class": class});
         if !(err <= tol) {
             c.violation(&sig(class, if err.is_nan() { "NaN" } else { "value" }), if err.is_nan() { f64::INFINITY } else { err }, case);
+        } else if !calib {
+            l.best_ge360 = l.best_ge360.max(err / tol);
         } else if tol > 0.0 && err / tol > l.best {
             l.best = err / tol;
             c.ratio(&format!("{}/{}", group, T::NAME), err / tol, case);
@@ -458,10 +490,10 @@ pub fn judge_contrast<T: Fl>(trait_name: &'static str, ty: &'static str, o: &WOb
             let want = oracle::contrast(a, b);
             let err = (rv - want).abs() / want;
             l.traces += 1;
-            if !(err <= 8.0 * T::EPS) {
+            if !(err <= 16.0 * T::EPS) {
                 c.violation(&sig("ratio-vs-own-luminance"), err, || case("relative_contrast is not (L1 + 0.05) / (L2 + 0.05) of the relative_luminance values"));
             } else {
-                worst = worst.max(err / (8.0 * T::EPS));
+                worst = worst.max(err / (16.0 * T::EPS));
             }
         }
         if let Some(rf) = reference {
@@ -481,7 +513,9 @@ pub fn judge_contrast<T: Fl>(trait_name: &'static str, ty: &'static str, o: &WOb
         for (i, (name, thr)) in oracle::THRESHOLDS.iter().enumerate() {
             l.traces += 1;
             if o.p[k][i] != (rv >= *thr) {
-                c.violation(&sig(&format!("predicate/{name}")), (rv - thr).abs().max(f64::MIN_POSITIVE), || case(&format!("{name} returned {} but the ratio is {rv} (threshold {thr})", o.p[k][i])));
+                // the predicates are provided methods of the trait, shared by every implementing
+                // type (no impl overrides them): the call site is the trait, not the colour type
+                c.violation(&format!("C09/wcag/{}/predicate/{}/{}", trait_name, name, T::NAME), (rv - thr).abs().max(f64::MIN_POSITIVE), || case(&format!("{name} returned {} but the ratio is {rv} (threshold {thr})", o.p[k][i])));
             }
         }
     }
